@@ -76,6 +76,17 @@ TStep ==
      \/ /\ e.ev = "writer" /\ CallWriter(e.p) /\ Finish(C(e.bytes_ok /\ e.path_ok, "module_writer-arguments"), e)
      \/ /\ e.ev = "load" /\ LoadFrom(e.p, TProbing \cup {"Load"}) /\ Finish(C(e.from = mod.from /\ e.magic = mod.magic, "load-content"), e)
      \/ /\ e.ev = "done" /\ Done(e.p) /\ Finish(C(e.rendered = loc[e.p].loaded.from, "done-rendered"), e)
+     \* a construction that finishes without importing the module file (it reuses a module it holds in memory):
+     \* judged by the property, not by the protocol -- no rewrite may have been due, and what it renders must be
+     \* a version the module path held during the construction (the current one if that is all it held)
+     \/ /\ e.ev = "done" /\ pc[e.p] \in TProbing \cup {"Load"}
+        /\ Go(e.p, "idle", loc[e.p], [ev |-> "done", rendered |-> e.rendered, rewrote |-> loc[e.p].rewrote])
+        /\ UNCHANGED <<now, src, mod, tmp, dir>>
+        /\ Finish(IF loc[e.p].due0 /\ ~loc[e.p].others /\ ~loc[e.p].rewrote
+                     THEN "inv:RewriteWhenDue(finished without importing the module file although a rewrite was due)"
+                  ELSE IF e.rendered \notin loc[e.p].seen \/ (loc[e.p].seen = {src.ver} /\ e.rendered # src.ver)
+                     THEN "inv:RendersCurrent(finished without importing the module file and renders another version)"
+                  ELSE "", e)
      \/ /\ e.ev = "crash" /\ Crash(e.p) /\ (e.mid <=> (pc[e.p] = "Write" /\ tmp'[e.p].bytes = 1)) /\ Finish("", e)
      \/ /\ e.ev = "fsop" /\ pc[e.p] # "idle" /\ Stutter /\ Finish("", e)
 TStuck == /\ verdict = "run" /\ l <= Len(Ev) /\ ~ENABLED TStep
